@@ -11,7 +11,7 @@ Binding:
      machinery failure for git: the git automaton is validated first, on hand-written files where
      dulwich is not involved); every transition of the ConfigOps state graph is replayed on a real
      ConfigFile object;
-  T  executions on inputs TLC does not enumerate (every byte value, hypothesis configurations with
+  T  executions on inputs TLC does not enumerate (every byte value, random configurations with
      several sections / multi-valued keys, every ConfigOps state incl. git-driven histories) are
      recorded as ndjson and judged by TLC against ConfigTrace.
 A VIOLATION is raised only from what the real code returned (a value, key, subsection or order that
@@ -221,16 +221,19 @@ def iter_json_dump(path, chunk):
         yield buf
 
 
-def replay_cfg_space(ctx, book, space, dump, variant):
-    """every enumerated configuration on the real dulwich and the real git; -> (number of cases, a sample case)"""
+def replay_cfg_space(ctx, book, space, dump, variant, full_len):
+    """every enumerated configuration on the real dulwich writer/reader; the real git on every case up to length
+    full_len, on every 8th longer one, and on every case where dulwich's bytes are not the model's (quick tier;
+    the thorough tier runs git on everything).  -> (number of cases, a sample case)"""
     real_fail = {c: {} for c in CLAUSES}
     model_fail = {c: set() for c in CLAUSES}
     refused = total = 0
     sample = None
+    stats = {"git_ran": 0, "dulwich_only": 0}
     for cases in iter_json_dump(dump, 40000):
         total += len(cases)
         sample = sample or cases[len(cases) // 3]
-        refused += _replay_cfg_chunk(ctx, book, space, cases, real_fail, model_fail)
+        refused += _replay_cfg_chunk(ctx, book, space, cases, real_fail, model_fail, full_len, stats)
     # ---- property verdicts: minimal failing cases, separately for failures the tree's model predicts
     summary = {}
     for cl in CLAUSES:
@@ -241,11 +244,11 @@ def replay_cfg_space(ctx, book, space, dump, variant):
             for x in minimal(S):
                 report(ctx, space, cl, x, cfg_of(space, x), real_fail[cl][x], p, variant)
     summary["git_refused_to_store"] = refused
-    ctx.cov.setdefault("spaces", {})[space] = dict(summary, cases=total)
+    ctx.cov.setdefault("spaces", {})[space] = dict(summary, cases=total, **stats)
     return total, sample
 
 
-def _replay_cfg_chunk(ctx, book, space, cases, real_fail, model_fail):
+def _replay_cfg_chunk(ctx, book, space, cases, real_fail, model_fail, full_len, stats):
     xs = [bytes(c["x"]) for c in cases]
     cfgs = [cfg_of(space, x) for x in xs]
     mdw = [bytes(c["dw"]) for c in cases]
@@ -260,14 +263,21 @@ def _replay_cfg_chunk(ctx, book, space, cases, real_fail, model_fail):
             o["dw"], o["dwexc"] = None, type(e).__name__
         o["dr"] = R.dul_read(o["dw"]) if o["dw"] is not None else (False, [], "write:" + o["dwexc"])
         outs.append(o)
+    # which cases go through the git binary
+    for o, x, m in zip(outs, xs, mdw):
+        o["git"] = len(x) <= full_len or o["dw"] != m or (int.from_bytes(hashlib.sha1(x).digest()[:4], "big") + ctx.seed) % 8 == 0
+    gi = [i for i, o in enumerate(outs) if o["git"]]
+    stats["git_ran"] += len(gi)
+    stats["dulwich_only"] += len(outs) - len(gi)
     # git reads dulwich's bytes (batched where the model expects git to accept exactly these bytes)
     st = {}
-    batch = [o["dw"] is not None and o["dw"] == m and g[0] for o, m, g in zip(outs, mdw, mgr)]
-    grs = R.git_read_smart(ctx.scratch, [o["dw"] if o["dw"] is not None else b"[" for o in outs], batch, st)
+    batch = [outs[i]["dw"] is not None and outs[i]["dw"] == mdw[i] and mgr[i][0] for i in gi]
+    grs = R.git_read_smart(ctx.scratch, [outs[i]["dw"] if outs[i]["dw"] is not None else b"[" for i in gi], batch, st)
     # git writes, dulwich reads
-    gws = R.git_write_single_many(ctx.scratch, [(R.git_key(cfg[0], cfg[0]["items"][0][0]), cfg[0]["items"][0][1]) for cfg in cfgs])
+    gws = R.git_write_single_many(ctx.scratch, [(R.git_key(cfgs[i][0], cfgs[i][0]["items"][0][0]), cfgs[i][0]["items"][0][1]) for i in gi])
     need = []
-    for i, (o, g, gw, cfg) in enumerate(zip(outs, grs, gws, cfgs)):
+    for i, g, gw in zip(gi, grs, gws):
+        o, cfg = outs[i], cfgs[i]
         o["gr"] = g if o["dw"] is not None else (False, [])
         o["gw"] = gw
         if gw is not None:
@@ -285,6 +295,21 @@ def _replay_cfg_chunk(ctx, book, space, cases, real_fail, model_fail):
         ctx.validated()
         if SPECIAL & set(x):
             ctx.nontrivial((space, x))
+        if not o["git"]:
+            # dulwich only: the round trip, and the reader on the bytes Config.tla says git writes (conformance only)
+            if not c["rt"]:
+                model_fail["RoundTrip"].add(x)
+            ok, rc, exc = o["dr"]
+            if not (ok and R.norm(rc) == R.norm(cfg)):
+                real_fail["RoundTrip"][x] = f"dulwich wrote {o['dw']!r} and read back " + (cfg_show(rc) if ok else f"an error ({exc})")
+            m_dr = R.dulres_from_json(c["dr"][0]) if c["dr"] else (True, cfg)
+            if (ok, rc) != m_dr:
+                book.add_drift(f"{space}/DulRead", f"file {o['dw']!r}: real {o['dr']!r}, model {m_dr!r}")
+            dg = R.dul_read(bytes(c["gw"]))
+            m_dg = R.dulres_from_json(c["dg"][0]) if c["dg"] else (True, cfg)
+            if (dg[0], dg[1]) != m_dg:
+                book.add_drift(f"{space}/DulRead(git)", f"file {bytes(c['gw'])!r}: real {dg!r}, model {m_dg!r}")
+            continue
         for cl, flag in zip(CLAUSES, ("rt", "dgok", "gd")):
             if not c[flag]:
                 model_fail[cl].add(x)
@@ -416,44 +441,71 @@ class RealOracle:
                 self.memo[keys[i]] = not clause_results(cfg, o)[clause][0]
         return [self.memo[k] for k in keys]
 
-    def shrink(self, clause, cfg):
-        """-> (space, x, cfg) of a small configuration that still fails clause"""
-        def one(c):
-            return self.fails(clause, [c])[0]
+    @staticmethod
+    def _shrink(cfg):
+        """generator: yields lists of configurations to test, receives the list of 'fails' answers;
+        returns (space, x, cfg) of a small configuration that still fails"""
+        def digest(c):
+            return hashlib.sha1(json.dumps(cfg_hex(c), sort_keys=True).encode()).digest()[:8]
         # 1. a single item
         singles = [[sec(s["sec"], s["hs"], s["sub"], [it])] for s in cfg for it in s["items"]]
-        hits = [c for c, f in zip(singles, self.fails(clause, singles)) if f] if singles else []
+        ans = (yield singles) if singles else []
+        hits = [c for c, f in zip(singles, ans) if f]
         if not hits:
-            return "cfg", hashlib.sha1(json.dumps(cfg_hex(cfg), sort_keys=True).encode()).digest()[:8], cfg
+            return "cfg", digest(cfg), cfg
         s = hits[0][0]
         k, v = s["items"][0]
         # 2. is it the value, the subsection or the names?
-        if one(cfg_of("val", v)):
+        ans = yield [cfg_of("val", v), cfg_of("sub", s["sub"])]
+        if ans[0]:
             space, x = "val", v
-        elif s["hs"] and one(cfg_of("sub", s["sub"])):
+        elif s["hs"] and ans[1]:
             space, x = "sub", s["sub"]
         else:
-            return "cfg", hashlib.sha1(json.dumps(cfg_hex(hits[0]), sort_keys=True).encode()).digest()[:8], hits[0]
+            return "cfg", digest(hits[0]), hits[0]
         # 3. a single byte of it, else greedy one-byte deletions
         bs = sorted(set(x))
-        f1 = self.fails(clause, [cfg_of(space, bytes([c])) for c in bs])
-        for c, f in zip(bs, f1):
+        ans = yield [cfg_of(space, bytes([c])) for c in bs]
+        for c, f in zip(bs, ans):
             if f:
                 return space, bytes([c]), cfg_of(space, bytes([c]))
         changed = True
         while changed and len(x) > 1:
             changed = False
             cands = [x[:i] + x[i + 1:] for i in range(len(x))]
-            for cnd, f in zip(cands, self.fails(clause, [cfg_of(space, c) for c in cands])):
+            ans = yield [cfg_of(space, c) for c in cands]
+            for cnd, f in zip(cands, ans):
                 if f:
                     x, changed = cnd, True
                     break
         return space, x, cfg_of(space, x)
 
+    def shrink_all(self, tasks):
+        """tasks: [(clause, cfg)] -> [(space, x, small cfg)]; the questions of all tasks are answered in batches"""
+        gens = [self._shrink(cfg) for _, cfg in tasks]
+        results, pending = {}, {}
+        for i, g in enumerate(gens):
+            try:
+                pending[i] = next(g)
+            except StopIteration as e:
+                results[i] = e.value
+        while pending:
+            for cl in CLAUSES:
+                self.fails(cl, [c for i, q in pending.items() if tasks[i][0] == cl for c in q])     # fills the memo
+            nxt = {}
+            for i, q in pending.items():
+                try:
+                    nxt[i] = gens[i].send(self.fails(tasks[i][0], q))
+                except StopIteration as e:
+                    results[i] = e.value
+            pending = nxt
+        return [results[i] for i in range(len(tasks))]
+
 
 def judge_records(ctx, book, oracle, records, meta, verdicts, variant):
     """records judged by TLC -> violations (property clauses on observed results) and drift"""
     nfail = {c: 0 for c in CLAUSES}
+    failing = []        # (tid, clause, predicted by the tree's model)
     for r in records:
         v = verdicts[r["tid"]]
         m = meta[r["tid"]]
@@ -464,22 +516,26 @@ def judge_records(ctx, book, oracle, records, meta, verdicts, variant):
             else:
                 book.add_drift(f"{m['src']}/{d}", f"cfg {cfg_show(m['cfg'])}")
         for cl, holds, pred_holds in zip(CLAUSES, v["obs"], v["model"]):
-            if holds:
-                continue
-            nfail[cl] += 1
-            detail = clause_results(m["cfg"], m["o"])[cl][1]
-            if not pred_holds:
-                space, x, small = oracle.shrink(cl, m["cfg"])
-            else:
-                # not predicted by the tree's model: keep the case as it is (no shrinking into known territory)
-                space, x, small = "cfg", hashlib.sha1(json.dumps(cfg_hex(m["cfg"]), sort_keys=True).encode()).digest()[:8], m["cfg"]
-            if space == "cfg":
-                sig = f"{SITE['cfg']}|{cl}|config={x.hex()}"
-                ctx.violation(sig, f"{cl} fails for configuration {cfg_show(small)} ({m['src']}): {detail}",
-                              {"kind": "case", "space": "cfg", "clause": cl, "cfg": cfg_hex(small), "detail": detail,
-                               "model_predicts_failure": not pred_holds, "variant": variant, "history": m.get("history")})
-            else:
-                report(ctx, space, cl, x, small, f"(shrunk from {cfg_show(m['cfg'])}, {m['src']}) {detail}", not pred_holds, variant)
+            if not holds:
+                nfail[cl] += 1
+                failing.append((r["tid"], cl, not pred_holds))
+    # failures the tree's model predicts are shrunk on the real code to their smallest witness; the others are
+    # kept as they are (no shrinking into known territory)
+    shr = [f for f in failing if f[2]]
+    small = dict(zip([(t, cl) for t, cl, _ in shr], oracle.shrink_all([(cl, meta[t]["cfg"]) for t, cl, _ in shr])))
+    for tid, cl, predicted in failing:
+        m = meta[tid]
+        detail = clause_results(m["cfg"], m["o"])[cl][1]
+        if predicted:
+            space, x, sm = small[(tid, cl)]
+        else:
+            space, x, sm = "cfg", hashlib.sha1(json.dumps(cfg_hex(m["cfg"]), sort_keys=True).encode()).digest()[:8], m["cfg"]
+        if space == "cfg":
+            ctx.violation(f"{SITE['cfg']}|{cl}|config={x.hex()}", f"{cl} fails for configuration {cfg_show(sm)} ({m['src']}): {detail}",
+                          {"kind": "case", "space": "cfg", "clause": cl, "cfg": cfg_hex(sm), "detail": detail,
+                           "model_predicts_failure": predicted, "variant": variant, "history": m.get("history")})
+        else:
+            report(ctx, space, cl, x, sm, f"(shrunk from {cfg_show(m['cfg'])}, {m['src']}) {detail}", predicted, variant)
     return nfail
 
 
@@ -497,36 +553,39 @@ def sweep_cases():
     return out
 
 
-def hypothesis_cases(ctx, n):
-    from hypothesis import HealthCheck, Phase, given, seed, settings
-    from hypothesis import strategies as st
-    specials = list(b' \t"\\#;\n\r\x0b\x0c=[]ntb.\x08\x7f\x80\xff-')
-    byte = st.one_of(st.sampled_from(specials), st.sampled_from(list(b"abcXYZ019")), st.integers(1, 255))
-    value = st.lists(byte, max_size=12).map(bytes)
-    subsection = st.lists(byte.filter(lambda c: c != 10), max_size=6).map(bytes)
-    alnum = list(b"abcxyzABC019-")
-    secname = st.lists(st.sampled_from(alnum), min_size=1, max_size=4).map(bytes)
-    keyname = st.tuples(st.sampled_from(list(b"abkKjJ")), st.lists(st.sampled_from(alnum), max_size=2).map(bytes)).map(lambda t: bytes([t[0]]) + t[1])
-    keypool = st.one_of(st.sampled_from([b"k", b"K", b"j"]), keyname)
-    section = st.tuples(secname, st.one_of(st.none(), subsection), st.lists(st.tuples(keypool, value), min_size=1, max_size=4))
-    config = st.lists(section, min_size=1, max_size=3)
-    got = []
+def random_cases(ctx, n):
+    """n configurations drawn with ctx.rng: 1-3 sections (names from the legal classes, optional subsection over all
+    bytes but NUL/LF), 1-4 items each from a small key pool (so that multi-valued keys and case variants of one key are
+    frequent), values over all bytes 1..255 with the special characters over-represented."""
+    rng = ctx.rng
+    specials = b' \t"\\#;\n\r\x0b\x0c=[]ntb.\x08\x7f\x80\xff-'
+    plain = b"abcXYZ019"
+    alnum = b"abcxyzABC019-"
 
-    @seed(ctx.seed)
-    @settings(max_examples=n, database=None, deadline=None, derandomize=False, phases=[Phase.generate],
-              suppress_health_check=list(HealthCheck))
-    @given(config)
-    def collect(c):
+    def byte(no_lf=False):
+        while True:
+            r = rng.random()
+            c = rng.choice(specials) if r < 0.45 else rng.choice(plain) if r < 0.8 else rng.randint(1, 255)
+            if not (no_lf and c == 10):
+                return c
+
+    def key():
+        if rng.random() < 0.6:
+            return rng.choice([b"k", b"K", b"j"])
+        return bytes([rng.choice(b"abkKjJ")] + [rng.choice(alnum) for _ in range(rng.randint(0, 2))])
+    got = []
+    while len(got) < n:
         seen, cfg = set(), []
-        for name, sub, items in c:
-            key = (name.lower(), sub)
-            if key in seen or name.lower() in (b"include", b"includeif"):
+        for _ in range(rng.randint(1, 3)):
+            name = bytes(rng.choice(alnum) for _ in range(rng.randint(1, 4)))
+            sub = bytes(byte(True) for _ in range(rng.randint(0, 6))) if rng.random() < 0.6 else None
+            if (name.lower(), sub) in seen or name.lower() in (b"include", b"includeif"):
                 continue
-            seen.add(key)
+            seen.add((name.lower(), sub))
+            items = [(key(), bytes(byte() for _ in range(rng.randint(0, 12)))) for _ in range(rng.randint(1, 4))]
             cfg.append(sec(name, sub is not None, sub or b"", items))
         if cfg:
             got.append(cfg)
-    collect()
     return got
 
 
@@ -608,16 +667,21 @@ def git_op(act, args):
     return [b"--unset-all", b"--", key]
 
 
-def ops_phase(ctx, book, d, variant, tid0):
-    from dulwich.config import ConfigFile
-    mi = ctx.pick(2, 3)
+def ops_tlc(d, variant, mi, workers):
     cfgp = os.path.join(d, "ops.cfg")
     tlc.write_cfg(cfgp, spec="Spec", constants=consts(variant, MaxItems=mi, NSec=4, NKey=3, NVal=2),
                   invariants=["InvRoundTrip", "InvInteropDG"], properties=["RewriteIsIdentity"])
     dot = os.path.join(d, "ops.dot")
-    res = tlc.run("ConfigOps.tla", cfgp, workers=ctx.pick(3, 8), dump_dot=dot, timeout=1500)
+    return tlc.run("ConfigOps.tla", cfgp, workers=workers, dump_dot=dot, timeout=1500), dot
+
+
+def ops_phase(ctx, book, fut, mi, variant, tid0):
+    from dulwich.config import ConfigFile
+    res, dot = fut.result()
     ctx.add_tlc(f"ConfigOps (MaxItems={mi}, 4 sections x 3 keys x 2 values; set/add/remove/rewrite)", res)
+    ctx.log("ConfigOps model checked")
     g = tlc.load_dot(dot)
+    ctx.log("graph loaded")
     init = g.init[0]
     parent, order = {init: None}, [init]
     for n in order:
@@ -655,8 +719,16 @@ def ops_phase(ctx, book, d, variant, tid0):
         clean = True
         for l, dst in [(None, n)] + g.edges.get(n, []):
             c = ConfigFile()
-            for pl in path:
-                c = apply_op(c, *lab(pl), tmp)
+            try:
+                for pl in path:
+                    c = apply_op(c, *lab(pl), tmp)
+            except Exception as e:      # noqa: BLE001 - the real code refuses a history the model allows:
+                if l is None:           # reported where it first happened (as a transition out of a clean state)
+                    nmis += 1
+                    book.add_drift("ops/state", f"{path}: the real code raises {type(e).__name__}")
+                    node_real[n] = ([], path)
+                    clean = False
+                continue
             if l is None:
                 got = R.dul_project(c)
                 if got != want:
@@ -680,6 +752,7 @@ def ops_phase(ctx, book, d, variant, tid0):
                 if clean and (isinstance(got, str) or means(got) != means(wdst)):
                     bad.append((path + [l], got, wdst))
             ctx.nontrivial(("ops", n, l))
+    ctx.log("transitions replayed")
     bad.sort(key=lambda t: (len(t[0]), t[0]))
     for hist, got, wdst in bad[:5]:
         show = " ; ".join(show_op(*lab(x)) for x in hist)
@@ -690,7 +763,7 @@ def ops_phase(ctx, book, d, variant, tid0):
     ctx.validated(nedges)
     # every state as a recorded execution (real files through write_to_path/from_path), a sample with git-driven histories
     nodes = [n for n in order if node_real[n][0]]
-    nsample = ctx.pick(600, 6000)
+    nsample = ctx.pick(300, 6000)
     chosen = set(ctx.rng.sample(nodes, min(nsample, len(nodes))))
     cfgs = [node_real[n][0] for n in nodes]
     hists = [([h for h in (git_op(*lab(pl)) for pl in node_real[n][1]) if h] if n in chosen else None) for n in nodes]
@@ -747,8 +820,11 @@ def run(ctx):
     ctx.log("model variant bound to this tree:", {k: v for k, v in variant.items() if v} or "all FALSE (dulwich 671b511)")
     book = Book(ctx)
     plan = [("val", ctx.pick(4, 5)), ("fval", ctx.pick(3, 4)), ("fhdr", ctx.pick(3, 4)), ("sub", ctx.pick(3, 4)), ("name", ctx.pick(2, 3))]
+    order = ["sub", "name", "val"]      # val last: its enumeration takes longest
     with cf.ThreadPoolExecutor(3) as pool:
         gens = {sp: pool.submit(tlc_cases, d, sp, ml, variant, ctx.pick(4, 6) if sp == "val" else ctx.pick(2, 1)) for sp, ml in plan}
+        mi = ctx.pick(2, 3)
+        opsfut = pool.submit(ops_tlc, d, variant, mi, ctx.pick(2, 6))
         mc = model_check(ctx, d, variant, pool)
         # 1. the git automaton first, on hand-written files (dulwich's writer is not involved)
         for sp, ml in plan:
@@ -763,40 +839,42 @@ def run(ctx):
         if book.spec:
             book.flush()
         # 2. configuration spaces on the real writer/readers
-        for sp, ml in plan:
-            if sp in ("fval", "fhdr"):
-                continue
+        for sp in order:
+            ml = dict(plan)[sp]
             res, dump = gens[sp].result()
             ctx.add_tlc(f"ConfigCases[{sp}<={ml}] tree variant: DulWrite/DulRead/GitRead/GitWrite per case", res)
-            n, c = replay_cfg_space(ctx, book, sp, dump, variant)
+            n, c = replay_cfg_space(ctx, book, sp, dump, variant, ctx.pick(3, 99))
             ctx.log(f"{sp}<={ml}: {n} configurations through dulwich and git  {ctx.cov['spaces'][sp]}")
             ctx.sample({"kind": sp, KIND[sp]: repr(bytes(c["x"])), "dulwich_writes": repr(bytes(c["dw"])), "git_writes": repr(bytes(c["gw"]))})
         finish_model_check(ctx, mc)
     # 3. histories
-    records, meta, tid = ops_phase(ctx, book, d, variant, 0)
+    records, meta, tid = ops_phase(ctx, book, opsfut, mi, variant, 0)
     ctx.log(f"histories: {ctx.cov['ops_replay']}")
     # 4. inputs TLC does not enumerate
     extra = sweep_cases()
     nsweep = len(extra)
-    extra += hypothesis_cases(ctx, ctx.pick(300, 6000))
+    extra += random_cases(ctx, ctx.pick(400, 6000))
+    ctx.log(f"executing {len(extra)} more configurations (byte sweep, random)")
     outs = execute_cfgs(ctx, extra)
+    ctx.log("executed")
     for i, (cfg, o) in enumerate(zip(extra, outs)):
         tid += 1
         ctx.count()
         ctx.nontrivial(("rec", json.dumps(cfg_hex(cfg), sort_keys=True)))
         records.append(trace_record(tid, cfg, o, fresh=True))
-        meta[tid] = {"src": "bytes" if i < nsweep else "hypothesis", "cfg": cfg, "o": o}
+        meta[tid] = {"src": "bytes" if i < nsweep else "random", "cfg": cfg, "o": o}
     ctx.sample({"kind": "recorded", "cfg": cfg_show(extra[-1]), "dulwich_writes": repr(outs[-1]["dw"])})
     verdicts = validate_traces(ctx, d, records, variant, "all", workers=ctx.pick(6, 8))
+    ctx.log("judged by TLC")
     oracle = RealOracle(ctx)
     nfail = judge_records(ctx, book, oracle, records, meta, verdicts, variant)
-    ctx.cov["recorded"] = {"byte_sweep": nsweep, "hypothesis": len(extra) - nsweep, "history_states": len(records) - len(extra), "failing": nfail}
+    ctx.cov["recorded"] = {"byte_sweep": nsweep, "random_configurations": len(extra) - nsweep, "history_states": len(records) - len(extra), "failing": nfail}
     ctx.log(f"recorded executions judged by TLC: {len(records)}  failing clauses: {nfail}")
     book.flush()
     ctx.cov["rule"] = ("cases: (a) every string over the special-character alphabets up to the length bound, as value / subsection / "
                        "section+key name / hand-written file tail, enumerated by TLC and executed on the real dulwich and git; (b) every "
                        "transition of the ConfigOps state graph on a real ConfigFile; (c) recorded executions (every byte value, "
-                       "hypothesis configurations, every ConfigOps state, git-driven histories) judged by TLC.  distinct = distinct input; "
+                       "random configurations, every ConfigOps state, git-driven histories) judged by TLC.  distinct = distinct input; "
                        "non-trivial = the string contains a character the writer must quote/escape or the reader treats specially "
                        "(blank, TAB, '\"', '\\', '#', ';', LF, CR, VT, FF), every hand-written file, every history transition, every recorded configuration")
     ctx.assumptions += [
